@@ -25,6 +25,26 @@ theorem NodeSim.isDef {a b : Node} (h : NodeSim a b) : b.isDef = a.isDef := by
   unfold Node.isDef; rw [h.1]
 theorem NodeSim.sat {a b : Node} (h : NodeSim a b) : b.sat = a.sat := by
   unfold Node.sat; rw [h.1]
+theorem NodeSim.defTy {a b : Node} (h : NodeSim a b) : b.defTy = a.defTy := by
+  unfold Node.defTy; rw [h.1]
+
+theorem defTy_eq_some {nd : Node} {ty : Ty} : nd.defTy = some ty ↔ nd.kind = .definition ty := by
+  unfold Node.defTy
+  cases nd.kind <;> simp
+
+theorem isDef_of_defTy {nd : Node} {ty : Ty} (h : ty ∈ nd.defTy) : nd.isDef = true := by
+  rw [Option.mem_def, defTy_eq_some] at h
+  simp [Node.isDef, h]
+
+theorem defTy_none_of_not_isDef {nd : Node} (h : nd.isDef = false) : nd.defTy = none := by
+  unfold Node.isDef at h; unfold Node.defTy
+  cases hk : nd.kind <;> simp [hk] at h ⊢
+
+/-- the dependency clause of `EdgeOk` implies the weaker "both ends are definitions" -/
+theorem dep_isDef {s d : Node} (h : ∃ ts ∈ s.defTy, ∃ td ∈ d.defTy, ts < td) :
+    s.isDef = true ∧ d.isDef = true := by
+  obtain ⟨ts, hts, td, htd, _⟩ := h
+  exact ⟨isDef_of_defTy hts, isDef_of_defTy htd⟩
 
 theorem pkgOf_congr {g g' : Graph} (h : g'.pkgs = g.pkgs) (id : PkgId) : g'.pkgOf id = g.pkgOf id := by
   unfold Graph.pkgOf; rw [h]
@@ -57,7 +77,7 @@ theorem EdgeOk.transfer {ctx : Ctx} {g g' : Graph} {e : Edge} (h : EdgeOk ctx g 
   | dep =>
     rw [hek] at hk
     simp only at hk ⊢
-    rw [ss.isDef, sd.isDef]
+    rw [ss.defTy, sd.defTy]
     exact hk
 
 /-- a node stays well formed when edges, maps and package table are unchanged and the node
